@@ -1,2 +1,3 @@
 -- root of the FpVerif library: every property module (which pull in models, specs, lemmas, Gen)
 import FpVerif.Properties.C01
+import FpVerif.Properties.C04
